@@ -253,7 +253,7 @@ def _shared_list_fields(ctx, info) -> Set[str]:
         return out
     names = peer.param_names()
     for c in ast.walk(init.node):
-        if isinstance(c, ast.Call) and norm(c.func) == "tee_peer":
+        if isinstance(c, ast.Call) and norm(c.func) == peer.node.name:
             val = None
             for kw in c.keywords:
                 if kw.arg == P["peers"]:
@@ -380,11 +380,9 @@ def _class_level(info, ctx, attr: str) -> bool:
 def r04_5(ctx) -> None:
     u = ctx.unit("itertools.tee_peer")
     cfg = cfg_of(u)
-    names = u.param_names()
-    for needed in ("iterator", "buffer", "peers"):
-        if needed not in names:
-            raise AnalysisError(f"tee_peer no longer has a `{needed}` parameter (anchor moved)")
-    src = "itertools.tee_peer:iterator"
+    from . import c09
+    P = c09._params(u)  # parameters identified by their annotations, not their names
+    src = f"{u.short}:{P['iterator']}"
     fin_tries = [n.ast for n in cfg.nodes if n.kind == "nop" and False]
     # locate the finally region(s)
     tries = {id(a): a for n in cfg.nodes for (k, a) in n.regions if k == "finally"}
